@@ -136,6 +136,10 @@ ResolvableTerm(t, tg, nidU) ==
             x = ObjIdxSeq(t.objs[b])[z] /\ x \notin tg /\ OccTerm(t, x) = 2
 
 StripOrd(t) == [t EXCEPT !.ord = <<>>]
+StripPref(t) == [t EXCEPT !.ord = <<>>, !.num = 1, !.den = 1, !.s2 = 0, !.s3 = 0]
+RECURSIVE FlattenObjsR(_, _)
+FlattenObjsR(x, k) == IF k > Len(x) THEN <<>> ELSE x[k].objs \o FlattenObjsR(x, k + 1)
+FlattenObjs(x) == FlattenObjsR(x, 1)
 TermBagOf(x) == SeqBag([k \in 1..Len(x) |-> StripOrd(x[k])])
 
 UnitaryContract(ev, M) ==
@@ -179,6 +183,148 @@ WicksRulesContract(ev, M) ==
            IN IF d = <<>> THEN <<>> ELSE << <<"rules-value", d[1][2]>> >>
       ELSE <<>>)
 
+(* -- tensor construction (C06) -------------------------------------------------- *)
+(* ev.a.members: the constructions of one symmetry orbit. member = [inp :  *)
+(* object with the index tuple as passed to the constructor, out : the     *)
+(* constructed expression (<<>> = 0)].  ev.pre / ev.post = members[1].     *)
+(*  val      : the constructed object has the value the tensor model gives *)
+(*             to the INPUT tuple (sign and "never identifies unrelated    *)
+(*             tuples": the model has exactly the declared symmetry)       *)
+(*  orbit    : harness claim "inputs are related by the declared symmetry" *)
+(*             re-verified (same index multisets up to bra-ket swap)       *)
+(*  canonical: all members give the same canonical object                  *)
+(*  zero     : the result is 0 exactly in the forced cases of the property *)
+(*             (repeated index in an antisymmetric group; delta between    *)
+(*             different spaces or spins)                                  *)
+SameBagSeq(a, b) == Len(a) = Len(b) /\ SeqBag(a) = SeqBag(b)
+Related(o1, o2, bk) ==
+  \/ (SameBagSeq(o1.u, o2.u) /\ SameBagSeq(o1.l, o2.l))
+  \/ (bk # 0 /\ SameBagSeq(o1.u, o2.l) /\ SameBagSeq(o1.l, o2.u))
+OutObj(x) == IF x = <<>> THEN <<>> ELSE StripPref(x[1])
+TensorContract(ev, M) ==
+  LET mem == ev.a.members
+      bk == BkOf(mem[1].inp.nid, M)
+      inTerm(o) == << [num |-> 1, den |-> 1, s2 |-> 0, s3 |-> 0, objs |-> <<o>>, ord |-> <<>>] >>
+      bad == {k \in 1..Len(mem) : ValEq(ev, M, inTerm(mem[k].inp), mem[k].out) # <<>>}
+      forced(o) == \/ (o.k \in {"A", "M"} /\ (HasRepeat(o.u) \/ HasRepeat(o.l)))
+                   \/ (o.k = "D" /\ LET a == ev.idx[o.u[1]]  b == ev.idx[o.u[2]] IN
+                                      \/ (a.s # "g" /\ b.s # "g" /\ a.s # b.s)
+                                      \/ (a.p # "" /\ b.p # "" /\ a.p # b.p))
+  IN Clause("val", bad = {}, bad)
+     \o Clause("MACHINERY-orbit", \A k \in 1..Len(mem) : Related(mem[1].inp, mem[k].inp, bk), "not one orbit")
+     \o Clause("canonical", \A k \in 1..Len(mem) : OutObj(mem[k].out) = OutObj(mem[1].out),
+               {k \in 1..Len(mem) : OutObj(mem[k].out) # OutObj(mem[1].out)})
+     \o Clause("zero", \A k \in 1..Len(mem) : (mem[k].out = <<>>) = forced(mem[k].inp),
+               {k \in 1..Len(mem) : (mem[k].out = <<>>) # forced(mem[k].inp)})
+
+(* declaring assumptions: value unchanged in every model with the assumed   *)
+(* symmetry, idempotent, untouched tensors identical                       *)
+AssumeContract(ev, M) ==
+  ValEq(ev, M, ev.pre, ev.post)
+  \o Clause("idempotent", TermBagOf(ev.post) = TermBagOf(ev.post2), "second application changed the expression")
+  \o Clause("untouched",
+            LET keep(x) == SeqBag(SelectSeq(FlattenObjs(x), LAMBDA o : o.nid \notin SeqRange(ev.a.affected)))
+            IN keep(ev.pre) = keep(ev.post), "a tensor that is not named by the assumption changed")
+
+(* -- index renaming (C08) -------------------------------------------------------- *)
+(* a substitution list is a sequence of pairs <<old, new>> of index ids; it *)
+(* is applied one pair after another (each pair to the whole tuple)        *)
+RECURSIVE SeqSubst(_, _, _)
+SeqSubst(t, subs, k) ==
+  IF k > Len(subs) THEN t
+  ELSE SeqSubst([j \in 1..Len(t) |-> IF t[j] = subs[k][1] THEN subs[k][2] ELSE t[j]], subs, k + 1)
+
+(* order_substitutions: ev.a = [n, map (Seq: position i |-> image id),      *)
+(* subs (the returned list), observed (tuple after sympy subs of the list)] *)
+OrderSubsContract(ev, M) ==
+  LET id == [j \in 1..ev.a.n |-> j]
+      simultaneous == [j \in 1..ev.a.n |-> ev.a.map[j]]
+  IN Clause("sequential=simultaneous", SeqSubst(id, ev.a.subs, 1) = simultaneous,
+            <<SeqSubst(id, ev.a.subs, 1), simultaneous>>)
+     \o Clause("observed", ev.a.observed = simultaneous, <<ev.a.observed, simultaneous>>)
+
+(* Expr.permute(perms...): ev.a = [n, perms : Seq(<<p, q>>), observed]      *)
+RECURSIVE ApplyTranspositions(_, _, _)
+ApplyTranspositions(t, perms, k) ==
+  IF k > Len(perms) THEN t
+  ELSE ApplyTranspositions([j \in 1..Len(t) |->
+         IF t[j] = perms[k][1] THEN perms[k][2] ELSE IF t[j] = perms[k][2] THEN perms[k][1] ELSE t[j]],
+         perms, k + 1)
+PermuteContract(ev, M) ==
+  LET id == [j \in 1..ev.a.n |-> j]
+  IN Clause("permute", ev.a.observed = ApplyTranspositions(id, ev.a.perms, 1),
+            <<ev.a.observed, ApplyTranspositions(id, ev.a.perms, 1)>>)
+
+(* the documented name order of a space: base letters, then letter+1 ...   *)
+BaseLetters(sp) == CASE sp = "o" -> <<"i", "j", "k", "l", "m", "n", "o">>
+                     [] sp = "v" -> <<"a", "b", "c", "d", "e", "f", "g", "h">>
+                     [] OTHER -> <<"p", "q", "r", "s", "t", "u", "v", "w">>
+NameAt(sp, k) == LET b == BaseLetters(sp)  nb == Len(b)
+                     suffix == (k - 1) \div nb
+                 IN b[((k - 1) % nb) + 1] \o (IF suffix = 0 THEN "" ELSE ToString(suffix))
+(* the n lowest names of the space that are not in used *)
+LowestNames(sp, used, n) ==
+  LET cand == {k \in 1..(n + Cardinality(used)) : NameAt(sp, k) \notin used}
+      ks == SetToSortSeq(cand, LAMBDA x, y : x < y)
+  IN {NameAt(sp, ks[j]) : j \in 1..n}
+
+ContractedOf(x, tg) == (UNION {TermIdx(x[k]) : k \in 1..Len(x)}) \ tg
+
+(* substitute_contracted / substitute_with_generic on ONE term              *)
+RenameContract(ev, M) ==
+  LET tg == SeqRange(ev.tgt)
+      cpre == ContractedOf(ev.pre, tg)
+      cpost == ContractedOf(ev.post, tg)
+      kinds == {<<ev.idx[i].s, ev.idx[i].p>> : i \in cpost}
+      tnames(kd) == {ev.idx[i].n : i \in {j \in tg : ev.idx[j].s = kd[1] /\ ev.idx[j].p = kd[2]}}
+      cnames(kd) == {ev.idx[i].n : i \in {j \in cpost : ev.idx[j].s = kd[1] /\ ev.idx[j].p = kd[2]}}
+      count(kd, c) == Cardinality({j \in c : ev.idx[j].s = kd[1] /\ ev.idx[j].p = kd[2]})
+  IN ValEq(ev, M, ev.pre, ev.post)
+     \o Clause("target-touched", \A k \in 1..Len(ev.post) : tg \cap TermIdx(ev.pre[1]) \subseteq TermIdx(ev.post[k]),
+               "a target index disappeared")
+     \o Clause("merged", Cardinality(cpre) = Cardinality(cpost) /\
+                         \A kd \in kinds : count(kd, cpre) = count(kd, cpost),
+               <<Cardinality(cpre), Cardinality(cpost)>>)
+     \o (IF ev.a.mode = "lowest"
+         THEN Clause("lowest-names",
+                     \A kd \in kinds : cnames(kd) = LowestNames(kd[1], tnames(kd), count(kd, cpost)),
+                     {<<kd, cnames(kd)>> : kd \in kinds})
+         ELSE Clause("fresh-names",
+                     \A i \in cpost : <<ev.idx[i].n, ev.idx[i].s, ev.idx[i].p>> \notin SeqRange(ev.a.handed),
+                     {ev.idx[i].n : i \in {j \in cpost : <<ev.idx[j].n, ev.idx[j].s, ev.idx[j].p>> \in SeqRange(ev.a.handed)}}))
+
+(* the index registry: ev.a.hist is a recorded history of requests          *)
+(*   [op |-> "get", keys : Seq(<<name, space, spin>>), ids : Seq(object id)] *)
+(*   [op |-> "generic", space, spin, n, keys, ids]                          *)
+(* contract machine: reg maps a key to the object first returned for it;    *)
+(* a key always gives the identical object, different keys different        *)
+(* objects; generic requests return n distinct keys of the requested space  *)
+(* and spin that were never returned before.                                *)
+RECURSIVE RegistryRun(_, _, _, _)
+RegistryRun(hist, k, reg, fails) ==
+  \* reg: set of <<key, id>>
+  IF k > Len(hist) THEN fails
+  ELSE
+    LET h == hist[k]
+        known(key) == \E r \in reg : r[1] = key
+        idOf(key) == (CHOOSE r \in reg : r[1] = key)[2]
+        pairs == {<<h.keys[j], h.ids[j]>> : j \in 1..Len(h.keys)}
+        identityOk == /\ \A pr \in pairs : known(pr[1]) => idOf(pr[1]) = pr[2]
+                      /\ \A pr \in pairs : ~known(pr[1]) => \A r \in reg : r[2] # pr[2]
+                      /\ \A p1, p2 \in pairs : (p1[1] = p2[1]) = (p1[2] = p2[2])
+        genericOk == h.op # "generic" \/
+                     (/\ Len(h.keys) = h.n
+                      /\ Cardinality({h.keys[j] : j \in 1..Len(h.keys)}) = h.n
+                      /\ \A j \in 1..Len(h.keys) : h.keys[j][2] = h.space /\ h.keys[j][3] = h.spin
+                      /\ \A j \in 1..Len(h.keys) : ~known(h.keys[j]))
+        f1 == IF identityOk THEN <<>> ELSE << <<"identity", k>> >>
+        f2 == IF genericOk THEN <<>> ELSE << <<"generic-not-fresh", k>> >>
+    IN RegistryRun(hist, k + 1, reg \cup pairs, fails \o f1 \o f2)
+
+RegistryContract(ev, M) ==
+  LET f == RegistryRun(ev.a.hist, 1, {}, <<>>)
+  IN IF f = <<>> THEN <<>> ELSE << <<f[1][1], f>> >>
+
 (* -- the contract per operation ------------------------------------------ *)
 Contract(ev, M) ==
   CASE ev.op = "valpres" -> ValEq(ev, M, ev.pre, ev.post)
@@ -186,6 +332,12 @@ Contract(ev, M) ==
     [] ev.op = "evaluate_deltas" -> DeltaContract(ev, M)
     [] ev.op = "simplify_unitary" -> UnitaryContract(ev, M)
     [] ev.op = "wicks" -> WicksContract(ev, M)
+    [] ev.op = "tensor" -> TensorContract(ev, M)
+    [] ev.op = "order_substitutions" -> OrderSubsContract(ev, M)
+    [] ev.op = "permute" -> PermuteContract(ev, M)
+    [] ev.op = "rename" -> RenameContract(ev, M)
+    [] ev.op = "registry" -> RegistryContract(ev, M)
+    [] ev.op = "assume" -> AssumeContract(ev, M)
     [] ev.op = "wicks_rules" -> WicksRulesContract(ev, M)
     [] OTHER -> << <<"unknown-op", ev.op>> >>
 =============================================================================
